@@ -696,6 +696,8 @@ func wrapperCloseCancelsAndWaits(c *Ctx, r *R, op ownedParam, key string) bool {
 	var wrapT types.Type
 	if ret := returnedStruct(op.fn); ret != nil {
 		wrapT = ret.Type()
+	} else if wt := returnedWrapperType(op.fn); wt != nil {
+		wrapT = wt // built by a constructor helper
 	} else if op.fn.Signature.Recv() != nil && len(op.fn.Params) > 0 {
 		// a method of the wrapper itself starts the goroutine (iter.startReader(ctx, s)): the wrapper is the receiver
 		wrapT = op.fn.Params[0].Type()
